@@ -368,11 +368,20 @@ Theorem C06_value_repr_reads_back : forall o v x nl e,
 Proof. exact value_repr_reads_back. Qed.
 
 (* dict order (pprint sorts the items by key; Python dict equality ignores order).  [out_eqb] decides equality of
-   observations, so "pairwise different keys" is NoDup of the keys *)
+   observations; [keys_distinct] is "pairwise different keys" with PYTHON's key equality [out_py_eqb] (numbers by value:
+   1, True and 1.0 are one key; tuples pointwise), which dict(...) uses.  Pairwise different keys are in particular
+   different observations; not conversely. *)
 Theorem C06_out_eqb_iff : forall a b, out_eqb a b = true <-> a = b.
 Proof. exact out_eqb_iff. Qed.
-Theorem C06_keys_distinct_NoDup : forall kvs, keys_distinct kvs <-> NoDup (map fst kvs).
+Theorem C06_out_py_eqb_refl : forall a, out_py_eqb a a = true.
+Proof. exact out_py_eqb_refl. Qed.
+Theorem C06_keys_distinct_NoDup : forall kvs, keys_distinct kvs -> NoDup (map fst kvs).
 Proof. exact keys_distinct_NoDup. Qed.
+Example C06_NoDup_keys_not_distinct :
+  let kvs := [(OT "int" [OS "1"], OS "a"); (OT "bool" [OS "True"], OS "b")] in
+  NoDup (map fst kvs) /\ ~ keys_distinct kvs /\
+  build_dict kvs = OT "D" [OL [OT "int" [OS "1"]; OS "b"]].
+Proof. exact NoDup_keys_not_distinct. Qed.
 (* with pairwise different keys no entry is merged, and a permutation of the items gives a permutation of the entries *)
 Theorem C06_dict_order_irrelevant : forall kvs1 kvs2,
   keys_distinct kvs1 -> Permutation kvs1 kvs2 ->
@@ -393,8 +402,10 @@ Theorem C06_dict_value_order_irrelevant : forall o l1 l2 x1,
 Proof. exact dict_value_order_irrelevant. Qed.
 (* the hypothesis is needed: equal keys are merged (the later value, at the earlier position) *)
 Example C06_dict_equal_keys_merged :
-  build_dict [(OZ 1, OS "a"); (OZ 2, OS "b"); (OZ 1, OS "c")] = OT "D" [OL [OZ 1; OS "c"]; OL [OZ 2; OS "b"]].
-Proof. vm_compute. reflexivity. Qed.
+  build_dict [(OZ 1, OS "a"); (OZ 2, OS "b"); (OZ 1, OS "c")] = OT "D" [OL [OZ 1; OS "c"]; OL [OZ 2; OS "b"]] /\
+  build_dict [(OT "int" [OS "1"], OS "a"); (OT "int" [OS "2"], OS "b"); (OT "float" [OS "0x1.0000000000000p+0"], OS "c")]
+  = OT "D" [OL [OT "int" [OS "1"]; OS "c"]; OL [OT "int" [OS "2"]; OS "b"]].
+Proof. vm_compute. split; reflexivity. Qed.
 
 (* the condition on the atom tokens is needed (atoms_ok alone does not give it): an "atom" spelled like a bracket,
    known to the oracle, satisfies atoms_ok and denotes a value, but the parser takes it for a container *)
@@ -428,7 +439,8 @@ Definition C06_ex_tail : list token := [C06_tk NEWLINE ""; C06_tk ENDMARKER ""].
 
 Example C06_ex_atoms_ok : atoms_ok C06_ex_oracle C06_ex_value.
 Proof.
-  cbn. repeat split; try (right; reflexivity); try discriminate; eexists; reflexivity.
+  cbn. repeat split; try (right; reflexivity); try discriminate;
+    try (intros a Ha; injection Ha as <-; reflexivity); eexists; reflexivity.
 Qed.
 Example C06_ex_atoms_tok_ok : Forall tok_ok (pv_atoms C06_ex_value).
 Proof.
@@ -552,6 +564,8 @@ Print Assumptions C06_value_text_reads_back.
 Print Assumptions C06_value_repr_reads_back.
 Print Assumptions C06_out_eqb_iff.
 Print Assumptions C06_keys_distinct_NoDup.
+Print Assumptions C06_out_py_eqb_refl.
+Print Assumptions C06_NoDup_keys_not_distinct.
 Print Assumptions C06_dict_order_irrelevant.
 Print Assumptions C06_dict_value_order_irrelevant.
 Print Assumptions C06_dict_equal_keys_merged.
